@@ -191,7 +191,16 @@ impl Archive {
     /// Return the last completely-written band id, if any.
     pub async fn last_complete_band(&self) -> Result<Option<Band>> {
         for band_id in self.list_band_ids().await?.into_iter().rev() {
-            let b = Band::open(self, band_id).await?;
+            // A band that can't be opened (for example the leftover of a backup that
+            // was killed before it wrote its head) is not complete: keep looking at
+            // older bands rather than failing.
+            let b = match Band::open(self, band_id).await {
+                Ok(b) => b,
+                Err(err) => {
+                    warn!(?band_id, ?err, "Skipping band that can't be opened");
+                    continue;
+                }
+            };
             if b.is_closed().await? {
                 return Ok(Some(b));
             }
